@@ -328,7 +328,10 @@ class Interp:
             ob['trivial'] = len(p.trace) == 0
             return True
         neg = znot(cond)
-        r = z3.sat if neg is True else self.check(neg)
+        r = self.check() if neg is True else self.check(neg)
+        if r == z3.unsat and neg is True:
+            p.obligations.pop()
+            raise PathEnd('assertion reached on an infeasible path')
         if r == z3.unsat:
             ob['status'] = 'discharged'
             ob['smt2'] = None
@@ -340,8 +343,6 @@ class Interp:
             ob['status'] = 'unknown'
             self.add(cond)
             return False
-        if neg is True:
-            self.check()
         m = self.path.solver.model()
         ob['status'] = 'violated'
         ob['model'] = self.render_model(m)
@@ -657,6 +658,13 @@ class Interp:
                 if op == 'If':
                     c = ev(fr, ins['x'])
                     c = simp_bool(c)
+                    ua = self.cfg.get('unwind_all')
+                    if ua:
+                        key2 = (bi, 'all')
+                        cnt2 = fr.symvisits.get(key2, 0) + 1
+                        fr.symvisits[key2] = cnt2
+                        if cnt2 > ua:
+                            raise Unwind('%s block %d (%s) [all visits]' % (fn.name, bi, ins.get('pos', '')))
                     if isinstance(c, bool):
                         nxt = b['succs'][0 if c else 1]
                     else:
